@@ -6,7 +6,7 @@ from contracts import (ranges as R, ranges_init as RI, ranges_dinit as RD, tools
 
 
 def READERS():       # raw rows from the four containers and their dispatch
-    return [RDL.unit_delimited_rows(), RDL.unit_as_delimited_keywords(), FX.unit_fixed_rows(), OD.unit_ods_rows(), XL.unit_excel_rows(), XL.unit_excel_cell_value(), VIO.unit_raw_rows(), IF.unit_field_names_and_lengths()]
+    return [RDL.unit_delimited_rows(), RDL.unit_as_delimited_keywords(), TL.unit_compat_csv(), FX.unit_fixed_rows(), OD.unit_ods_rows(), XL.unit_excel_rows(), XL.unit_excel_cell_value(), VIO.unit_raw_rows(), IF.unit_field_names_and_lengths()]
 
 def VALIDATION():    # row / cell validation and the reader driving it
     return [VIO.unit_validate_row(), VIO.unit_reader_rows(), VIO.unit_reader_init(), VIO.unit_reader_close(), VIO.unit_validate_rows(), VIO.unit_close(), VIO.unit_module_rows_validate(),
@@ -29,7 +29,7 @@ def CID():           # reading an interface definition
 
 def WRITERS():
     return [VIO.unit_writer_init(), VIO.unit_writer_write_row(), VIO.unit_writer_write_rows(), VIO.unit_writer_close(), VIO.unit_padded_fixed_row(), RW.unit_fixed_row_writer_write_row(), RW.unit_delimited_row_writer_write_row(),
-            RW.unit_fixed_row_writer_init(), RW.unit_delimited_row_writer_init(), RW.unit_row_writer_close(), RW.unit_row_writer_write_rows()]
+            RW.unit_fixed_row_writer_init(), RW.unit_delimited_row_writer_init(), RW.unit_row_writer_close(), RW.unit_row_writer_write_rows(), TL.unit_compat_csv()]
 
 def APPLICATION():
     return [APP.unit_app_init(), APP.unit_set_options(), APP.unit_set_cid_from_path(), APP.unit_app_validate(), APP.unit_process(), APP.unit_main()]
